@@ -2,6 +2,7 @@ package c11
 
 import (
 	"fmt"
+	"os"
 	"strings"
 	"time"
 
@@ -16,7 +17,7 @@ import (
 //	recv:<b>          receive plaintext b (a second time: duplicate)
 //	recvmetafail:<b>  receive b while the write to the wrapped meta store fails once
 //	                  (the ciphertext is already stored; the receive is not acknowledged)
-//	recvbadhash       receive a blob offered under a ref with an unsupported hash
+//	recvbadhash       storage.ReceiveBlob of a blob offered under a ref with an unknown hash name
 //	restart           re-create the storage with an empty metaIndex
 //
 // After every op: leak scan of everything new in both wrapped stores, Fetch
@@ -26,7 +27,7 @@ import (
 
 func historyUniverse() []hs.Blob {
 	if vk.Thorough() {
-		return []hs.Blob{pSmall, pSchema, pSha1, pKiB2}
+		return []hs.Blob{pSmall, pSchema, pSha256, pKiB2}
 	}
 	return []hs.Blob{pSmall, pSchema, pKiB2}
 }
@@ -102,6 +103,7 @@ func (h *histRunner) run(seq []int) (res histResult) {
 	defer h.scan.forget()
 	names := h.seqNames(seq)
 	acked := make([]bool, len(h.u))
+	badAcked := false
 	var trace []string
 	fail := func(op, class, what string) {
 		res.Sig = "C11|history|" + op + "|" + class
@@ -132,9 +134,11 @@ func (h *histRunner) run(seq []int) (res histResult) {
 				return false
 			}
 		}
-		// the unsupported-hash blob can never have been stored faithfully
 		if class, detail := fetchClass(w.sto, pBadHash); bad(class) {
 			fail(op, sigClass(class), detail)
+			return false
+		} else if badAcked && class != "ok" {
+			fail(op, "acked-blob-not-fetched", fmt.Sprintf("Fetch(%s) of an acknowledged blob = %s (%s)", pBadHash.Name, class, detail))
 			return false
 		}
 		return true
@@ -171,16 +175,18 @@ func (h *histRunner) run(seq []int) (res histResult) {
 				}
 			}
 		case "recvbadhash":
-			_, err, pan := w.receive(pBadHash)
+			err, pan := w.receiveDirect(pBadHash)
 			if pan != "" {
-				fail(o.Kind, "panic|"+pan, "receive of a blob under a sha256 ref panicked: "+pan)
+				fail(o.Kind, "panic|"+pan, "ReceiveBlob of a blob under a ref with an unknown hash name panicked: "+pan)
 				return false
 			}
 			if err == nil {
-				fail(o.Kind, "unsupported-hash-acknowledged", "receive of a blob under a sha256 ref (no hash implementation) was acknowledged")
-				return false
+				// acknowledged: then it has to be served like any other blob
+				badAcked = true
+				trace = append(trace, "ack")
+			} else {
+				trace = append(trace, "err:"+errClass(err))
 			}
-			trace = append(trace, "err:"+errClass(err))
 		case "restart":
 			if err := w.restart(); err != nil {
 				fail(o.Kind, "restart-failed", fmt.Sprintf("re-creating the storage over untouched wrapped stores failed: %v", err))
@@ -276,11 +282,13 @@ func runHistoryFamily(res *vk.Result, deadline time.Time) {
 		}
 		sc.Nontrivial++
 		sc.Outcome(r.Outcome)
+		dumpOutcome("history", r.Outcome)
 		if mine%97 == 5 {
 			sc.Sample(map[string]any{"ops": h.seqNames(seq), "outcome": r.Outcome})
 		}
 	}
-	sc.Note += fmt.Sprintf(" leak scan by this shard: %d stored (name,content) pairs, %d bytes.", h.scan.Blobs, h.scan.Bytes)
+	sc.Note += " states = observation points; at each, every (name, content) pair of both wrapped stores not scanned before is leak-scanned."
+	fmt.Fprintf(os.Stderr, "c11: history leak scan of this shard: %d stored (name,content) pairs, %d bytes\n", h.scan.Blobs, h.scan.Bytes)
 }
 
 func seqRange(n int) []int {
